@@ -582,6 +582,39 @@ fn resolve_literal(
     }
 }
 
+fn contains_subquery(expr: &Expr) -> bool {
+    match expr {
+        Expr::Subquery { .. } => true,
+        Expr::Alias { expr, .. } | Expr::Cast { expr, .. } | Expr::UnaryOperation { expr, .. } => {
+            contains_subquery(expr)
+        }
+        Expr::BinaryOperation { left, right, .. } => {
+            contains_subquery(left) || contains_subquery(right)
+        }
+        Expr::Between {
+            expr, low, high, ..
+        } => contains_subquery(expr) || contains_subquery(low) || contains_subquery(high),
+        Expr::Datapoint { .. } | Expr::UnresolvedLiteral { .. } | Expr::ResolvedLiteral { .. } => {
+            false
+        }
+    }
+}
+
+/// A subquery stands for the rows it selects: it is an item of the SELECT list.
+/// As an operand (of a comparison, BETWEEN, NOT, ...) it would be evaluated as
+/// its position among the subqueries of the statement, so it is refused there.
+fn check_subquery_use(expr: &Expr, select_item: bool) -> Result<(), CompilationError> {
+    if select_item && matches!(expr, Expr::Subquery { .. }) {
+        return Ok(());
+    }
+    if contains_subquery(expr) {
+        return Err(CompilationError::UnsupportedOperation(
+            "a subquery is only supported as an item of the SELECT list".to_string(),
+        ));
+    }
+    Ok(())
+}
+
 fn compile_select_statement(
     select: &ast::Select,
     input: &impl CompilationInput,
@@ -609,6 +642,7 @@ fn compile_select_statement(
         None => {}
         Some(expr) => {
             let condition = compile_expr(expr, input, &mut query)?;
+            check_subquery_use(&condition, false)?;
             match condition.get_type() {
                 Ok(DataType::Bool) => {}
                 _ => {
@@ -626,11 +660,13 @@ fn compile_select_statement(
         match c {
             ast::SelectItem::UnnamedExpr(expr) => {
                 let expr = compile_expr(expr, input, &mut query)?;
+                check_subquery_use(&expr, true)?;
                 check_typed(&expr)?;
                 query.projection.push(expr);
             }
             ast::SelectItem::ExprWithAlias { expr, alias } => {
                 let expr = compile_expr(expr, input, &mut query)?;
+                check_subquery_use(&expr, true)?;
                 check_typed(&expr)?;
 
                 let name = alias.value.clone();
